@@ -70,7 +70,7 @@ def rule_requalify(F, rep, q1, q2):
         asg = [a for a in walk(th) if a.get('k') == 'Bin' and a.get('op') == '=' and a['c'][0].get('k') == 'Member' and a['c'][1].get('k') == 'Ref' and a['c'][1].get('dk') == 'enumc']
         wv = [a for a in asg if a['c'][0].get('q') == 'libcellml::AnalyserInternalVariable::mType' and a['c'][1]['n'] == 'ALGEBRAIC']
         we = [a for a in asg if a['c'][0].get('q') == 'libcellml::AnalyserInternalEquation::mType' and a['c'][1]['n'] == 'ALGEBRAIC']
-        if wv and we and any(m.get('k') == 'Member' and m.get('q') == 'libcellml::AnalyserInternalVariable::mType' for m in walk(role(i_, 'cond'))):
+        if wv and we:
             anchors.append((i_, wv[0], we[0]))
     if len(anchors) != 1:
         raise AnalysisBroken('analyseModel: the branch that requalifies a variable-based constant as algebraic was not found (%d candidates)' % len(anchors))
@@ -92,11 +92,22 @@ def rule_requalify(F, rep, q1, q2):
     en = F.enums.get(VAR_ENUM)
     if not en:
         raise AnalysisBroken('enum AnalyserInternalVariable::Type vanished')
+    cond_e = role(iff, 'cond')
+    flag_plain = None
+    ce = _strip(cond_e)
+    if ce.get('k') == 'Ref' and ce.get('dk') == 'local':
+        asg_ = [a for a in am.walk() if a.get('k') == 'Bin' and a.get('op') == '=' and a['c'][0].get('k') == 'Ref' and a['c'][0].get('d') == ce['d'] and _strip(a['c'][1]).get('k') != 'Bool' and a.get('l', 0) <= iff.get('l', 0)]
+        inits_ = [v_['c'][0] for v_ in am.walk() if v_.get('k') == 'Var' and v_.get('d') == ce['d'] and v_.get('c') and _strip(v_['c'][0]).get('k') != 'Bool']
+        if asg_:
+            cond_e = asg_[-1]['c'][1]
+            flag_plain = asg_[-1]
+        elif inits_:
+            cond_e = inits_[-1]
     for e_ in en['enumerators']:
         t = e_['n']
-        v = _eval(role(iff, 'cond'), t, var_d, unknown)
+        v = _eval(cond_e, t, var_d, unknown)
         if v is None:
-            raise AnalysisBroken('requalifying condition `%s` cannot be evaluated for kind %s' % (render(role(iff, 'cond'))[:80], t))
+            raise AnalysisBroken('requalifying condition `%s` cannot be evaluated for kind %s' % (render(cond_e)[:80], t))
         const = t.endswith('CONSTANT')
         if const:
             rep.check(v is False, q1, 'other-variable-kind|%s' % t, am.where(iff),
@@ -113,6 +124,13 @@ def rule_requalify(F, rep, q1, q2):
         flags = {r['d'] for r in walk(role(w, 'cond')) if r.get('k') == 'Ref' and r.get('dk') == 'local' and r.get('t') == 'bool'}
         raised = [a for a in walk(role(iff, 'then')) if a.get('k') == 'Bin' and a.get('op') == '=' and a['c'][0].get('k') == 'Ref' and a['c'][0].get('d') in flags and _strip(a['c'][1]).get('k') == 'Bool' and _strip(a['c'][1]).get('v')]
         lowered = [a for a in walk(role(w, 'body')) if a.get('k') == 'Bin' and a.get('op') == '=' and a['c'][0].get('k') == 'Ref' and a['c'][0].get('d') in flags and _strip(a['c'][1]).get('k') == 'Bool' and not _strip(a['c'][1]).get('v')]
+        # the flag is only ever RAISED inside the passes: a plain assignment `flag = <test of this equation>` lets an equation that needs no change wipe out an earlier requalification
+        plain = [a for a in walk(role(w, 'body')) if a.get('k') == 'Bin' and a.get('op') == '=' and a['c'][0].get('k') == 'Ref' and a['c'][0].get('d') in flags and _strip(a['c'][1]).get('k') != 'Bool'
+                 and any(x.get('k') in ('RangeFor', 'For') for x in am.ancestors(a) if any(y is x for y in walk(role(w, 'body'))))]
+        if plain:
+            det = 'the flag that drives the repetition is overwritten inside the pass (`%s`): a later equation that needs no change clears it and the repetition stops one round early' % render(plain[0])[:60]
+            ok = False
+            break
         if raised and lowered:
             ok = True
             det = 'repeated while `%s`' % render(role(w, 'cond'))
